@@ -10,10 +10,14 @@ import (
 	"encoding/hex"
 	"encoding/json"
 	"fmt"
+	"io"
 	mrand "math/rand/v2"
 	"os"
 	"path/filepath"
 	"testing"
+	"time"
+
+	"github.com/cbeuw/Cloak/internal/common"
 
 	vk "github.com/cbeuw/Cloak/internal/verifkit"
 )
@@ -73,6 +77,9 @@ func c04One(r *vk.Reporter, o *Obfuscator, ref *vk.RefCodec, rng *mrand.Rand, si
 	rand.Read(buf) // stale content of a pooled buffer
 	f := &Frame{StreamID: sid, Seq: seq, Closing: closing}
 	off := 0
+	if inPlace && frameHeaderLength+len(payload) > len(buf) {
+		inPlace = false // cannot be placed in the buffer at all
+	}
 	if inPlace {
 		copy(buf[frameHeaderLength:], payload)
 		f.Payload = buf[frameHeaderLength : frameHeaderLength+len(payload)]
@@ -274,6 +281,24 @@ func TestVerif_C04(t *testing.T) {
 		}
 	}
 
+	// session level: whatever Stream.Write / ReadFrom put on the wire respects the configured limit
+	for li, limit := range []int{c04Limit, 0, 5000, 777, 4097, 16400, 12345} {
+		for _, m := range c04Methods {
+			id := fmt.Sprintf("session-limit/%d/%s", limit, m.name)
+			if !r.Mine(id) {
+				continue
+			}
+			r.Case(id, map[string]any{"limit": limit, "method": m.name})
+			k, d := c04SessionLimit(t, r, id, m.id, limit, li)
+			r.Count("distinct_enumerated", 1)
+			if k != "" {
+				r.Violation(id, "C04:"+k, d, nil)
+			} else {
+				r.Pass(id)
+			}
+		}
+	}
+
 	// golden vectors frozen from the pinned commit
 	id = "golden"
 	if r.Mine(id) {
@@ -378,4 +403,97 @@ func TestVerif_GenGolden(t *testing.T) {
 	if err := os.WriteFile(path, b, 0644); err != nil {
 		t.Fatal(err)
 	}
+}
+
+// c04SessionLimit drives a real Session (Write and ReadFrom) with payload sizes around the
+// per-frame maximum and checks every record on the wire against the configured limit and the
+// reference decoder.
+func c04SessionLimit(t *testing.T, r *vk.Reporter, id string, method byte, limit int, salt int) (kind, detail string) {
+	rng := r.Rand("c04sl", id)
+	eff := limit
+	if eff <= 0 {
+		eff = 1<<14 + 256
+	}
+	maxPayload := eff - 14 - 255
+	p := inBubble(t, func() {
+		var key [32]byte
+		for i := range key {
+			key[i] = byte(rng.Uint32())
+		}
+		obf, _ := MakeObfuscator(method, key)
+		ref, _ := vk.NewRefCodec(method, key)
+		sesh := MakeSession(9, SessionConfig{Obfuscator: obf, MsgOnWireSizeLimit: limit, InactivityTimeout: 100 * time.Hour})
+		net := vk.NewNet()
+		pp := net.NewPipe(vk.PipeOpts{NoCut: true})
+		sesh.AddConnection(common.NewTLSConn(pp.A))
+		var want []byte
+		sizes := []int{1, maxPayload - 1, maxPayload, maxPayload + 1, maxPayload + 2, 2*maxPayload + 1, 3 * maxPayload, eff, eff + 1, 1 + rng.IntN(2*eff)}
+		for round := 0; round < 3; round++ {
+			st, err := sesh.OpenStream()
+			if err != nil {
+				kind, detail = "harness", err.Error()
+				return
+			}
+			pr, pw := io.Pipe()
+			useRF := round == 1
+			if useRF {
+				go st.ReadFrom(pr)
+			}
+			for _, sz := range sizes {
+				b := make([]byte, sz)
+				vk.Fill(uint64(0xC04000+round), int64(len(want))+8, b)
+				want = append(want, b...)
+				var err error
+				if useRF {
+					_, err = pw.Write(b)
+				} else {
+					_, err = st.Write(b)
+				}
+				if err != nil {
+					kind, detail = "write-failed", fmt.Sprintf("write of %d bytes with limit %d failed: %v", sz, eff, err)
+					return
+				}
+			}
+			pw.Close()
+			synctest_Wait()
+		}
+		wire, _ := pp.Wire(0)
+		var got []byte
+		pos := 0
+		nrec := 0
+		for pos+5 <= len(wire) {
+			L := int(wire[pos+3])<<8 | int(wire[pos+4])
+			if pos+5+L > len(wire) {
+				kind, detail = "bad-record", "wire does not split into records"
+				return
+			}
+			if L > eff {
+				kind, detail = "over-limit", fmt.Sprintf("a message of %d bytes was put on the wire although the configured on-wire size limit is %d (method %d)", L, eff, method)
+				return
+			}
+			f, err := ref.Decode(wire[pos+5 : pos+5+L])
+			if err != nil {
+				kind, detail = "ref-decode", fmt.Sprintf("record %d does not decode with the reference codec: %v", nrec, err)
+				return
+			}
+			if f.Closing == 0 {
+				got = append(got, f.Payload...)
+			}
+			r.Max("largest_message_seen_limit_"+fmt.Sprint(eff), int64(L))
+			pos += 5 + L
+			nrec++
+		}
+		if !bytes.Equal(got, want) {
+			kind, detail = "wire-content", fmt.Sprintf("payloads decoded from the wire (%d bytes) differ from what was written (%d bytes)", len(got), len(want))
+		}
+		r.Count("evaluations", int64(nrec))
+		sesh.Close()
+		pp.A.Close()
+		pp.B.Close()
+		synctest_Wait()
+	})
+	if p != nil && kind == "" && !isBubbleLeftover(rigPanicStr(p)) {
+		kind, detail = "panic", rigPanicStr(p)
+	}
+	return
 }
